@@ -325,6 +325,15 @@ pub fn run(ctx: &Ctx) -> CheckResult {
         jobs.push((Cfg::p1(Kind::Atr, n), free_ops.clone(), db - 1));
         jobs.push((Cfg::p1(Kind::Cci, n), free_ops.clone(), db - 1));
     }
+    // scalar and bar inputs mixed on ONE composite instance (and on its parts)
+    let mixed: Vec<Op> = vec![Op::S(1.0), Op::B(Bar::hlc(2.0, 1.0, 2.0)), Op::S(4.0), Op::B(Bar::hlc(4.0, 1.0, 1.0)), Op::S(2.5), Op::B(Bar::hlc(4.0, 2.0, 4.0))];
+    for &n in &[1usize, 2, 3, 5] {
+        jobs.push((Cfg::p1(Kind::Atr, n), mixed.clone(), db + 1));
+        jobs.push((Cfg::pm(Kind::Kc, n, 2.0), mixed.clone(), db + 1));
+        jobs.push((Cfg::p2(Kind::SlowStoch, n, 3), mixed.clone(), db + 1));
+        jobs.push((Cfg::pm(Kind::Bb, n, 2.0), mixed.clone(), db + 1));
+        jobs.push((Cfg::p3(Kind::Macd, n, n + 2, 2), mixed.clone(), db + 1));
+    }
     // the same composites in a tiny price unit (2^-60): absolute epsilons / thresholds in a composite or a part show here
     let tiny_s = s_ops(&S_TINY);
     let tiny_b = b_ops(&scale_bars(&b_grid(), TINY));
@@ -379,6 +388,6 @@ pub fn run(ctx: &Ctx) -> CheckResult {
     }
     res.extra.insert("composite_configurations".into(), json!(jobs.len()));
     res.rule = "case = (composite configuration, stream): the real composite and separately constructed public parts (SMA, SD, EMA, FastStochastic, TrueRange, ATR, Minimum, Maximum, MAD) are fed the same stream; at every step the composite's outputs must equal the documented combination of the parts within tau(t)*M (variances for the Bollinger half-width, times the condition number for CCI/PPO, gated at 1e6); non-trivial = stream longer than the window".into();
-    res.bounds = format!("BB/KC/CE periods {singles:?} x multipliers {{2,0,0.5,3}}, ATR, CCI, SLOW_STOCH (n x {{1,3}}), MACD/PPO over 6 period triples; all 9^{ds} mixed-sign/rough scalar streams and all 10^{db} valid-bar streams, all 10^(depth-1) streams of unvalidated bars for SLOW_STOCH/KC/CE/ATR/CCI (BB, MACD and PPO are driven with bars as well as scalars; streams with reset(), composite and parts reset together) (side multipliers 1-2 levels shallower); the positive scalar / bar alphabets in a 2^-60 price unit for periods {{1,2,3,5}}");
+    res.bounds = format!("BB/KC/CE periods {singles:?} x multipliers {{2,0,0.5,3}}, ATR, CCI, SLOW_STOCH (n x {{1,3}}), MACD/PPO over 6 period triples; all 9^{ds} mixed-sign/rough scalar streams and all 10^{db} valid-bar streams, all 6^(depth+1) streams mixing scalars and bars on one instance for ATR/KC/SLOW_STOCH/BB/MACD, all 10^(depth-1) streams of unvalidated bars for SLOW_STOCH/KC/CE/ATR/CCI (BB, MACD and PPO are driven with bars as well as scalars; streams with reset(), composite and parts reset together) (side multipliers 1-2 levels shallower); the positive scalar / bar alphabets in a 2^-60 price unit for periods {{1,2,3,5}}");
     res
 }
